@@ -7,6 +7,34 @@ HERE = os.path.dirname(os.path.dirname(os.path.abspath(__file__)))
 CMD = "PYTHONPATH=/repo/src PYTHONHASHSEED=0 /venv/bin/python harness/check.py %s --tier %s"
 
 CHECKS = {
+    "C01": dict(
+        engine="E3-exnflow",
+        technique="Coq proof over a skeleton REGENERATED from /repo/src by a fail-closed Python-ast translator (verified may-escape and return-path analyses of an exception-flow language with a nondeterministic fault semantics) + fault injection at named sites + differential live runs",
+        text="3 Coq theorems re-proved on every run over coq/gen/Skeleton.v (TriggerHandler.trace_call with everything it calls "
+             "inlined by name, every unresolved call / host operation an opaque step that may raise Exception- or "
+             "BaseException-class errors): no execution ends by raising; every return hands the trace function back except on "
+             "the 'shut down' and 'no tracepoints' branches; the returned value is the trace function or None. The analyses "
+             "(esc, rets, ret_paths) are proved sound against the big-step semantics once and for all in ExnFlow.v. Search: "
+             "40 fault sites x {Exception, BaseException} x call number x scenarios through the real handler, and a host "
+             "program run with and without the agent under generated (also malformed) tracepoints. PARTIAL: that the agent's "
+             "observations do not change host data is checked by the differential runs only.",
+        note="Trusted: Coq kernel+VM; the translator (call resolution by name inside deep, dynamic dispatch = choice over same-named "
+             "definitions, open-world alternative for receivers not rooted at self, no-raise whitelist listed in the evidence); "
+             "Python's try/except/finally/with semantics as encoded; MemoryError/RecursionError/signals out of scope. Known "
+             "observation outside the anchors: deep.start() reconfigures the root logger.",
+        design="5-C01"),
+    "C20": dict(
+        engine="E3-exnflow",
+        technique="Coq proof: loader = filter + stable insertion sort (membership iff, sortedness, failing candidate removable, stability) and, over loop bodies REGENERATED from /repo/src, 'every element attempted' for each of the nine plugin loops under Exception-class faults + in-Coq correspondence with the real load_plugins + differential fault runs",
+        text="6 Coq theorems: exactly the candidates that import, construct and report active are loaded, sorted by declared "
+             "order (equal orders keep input order); a candidate that fails affects no other; for each of the nine loops over "
+             "plugins / callbacks / results / listeners (bodies regenerated from the source on every run) every execution over "
+             "n elements, under any Exception-class failures of the callbacks, attempts all n and reaches the statements after "
+             "the loop. Tied to the code by generated candidate sets through the real load_plugins (compared inside Coq) and by "
+             "span / metric / decorator / logger / resource-provider plugins failing at random through the real handler and "
+             "Deep.start.",
+        note="Trusted: Coq kernel+VM; translator and whitelist as for C01; a plugin fails by raising an Exception subclass.",
+        design="5-C20"),
     "C09": dict(
         engine="E5-services",
         technique="Coq proof (exactly-once and flush invariants of the task-handler state machine over all label sequences: submissions, completions in any order the two-worker pool allows, flush steps; result()-style waiting refuted) + in-Coq correspondence with the real TaskHandler driven by gated tasks, and the real PushService with a recording stub",
@@ -250,6 +278,8 @@ def main():
                  serves_properties=["C03", "C04", "C10", "C11", "C15", "C16", "C17"], kind_free_text="Gallina models of the rate limiter (sequential and interleaved), condition gate and scope; real TriggerHandler with recording plugins, virtual clock, synthetic frames, forced schedules"),
             dict(name="E5-services", path="coq/theories/ConfigSvc.v coq/theories/ConfigSvcProofs.v harness/lib/e5.py harness/props/c12.py harness/props/c13.py coq/theories/Tasks.v coq/theories/TasksProofs.v coq/theories/Lifecycle.v coq/theories/LifecycleProofs.v harness/props/c09.py harness/props/c14.py",
                  serves_properties=["C09", "C12", "C13", "C14"], kind_free_text="Gallina state machines of the configuration service / task handler / lifecycle; real services under controlled executors and scripted stubs"),
+            dict(name="E3-exnflow", path="coq/theories/ExnFlow.v coq/gen/Skeleton.v harness/translate/exnflow.py harness/translate/gen.py coq/theories/Plugins.v coq/theories/PluginsProofs.v harness/props/c01.py harness/props/c20.py",
+                 serves_properties=["C01", "C14", "C20"], kind_free_text="exception-flow language with verified may-escape / return-path / loop analyses; skeletons regenerated from the Python source by a fail-closed ast translator on every run; fault injection"),
             dict(name="E4-stores", path="coq/theories/Attrs.v coq/theories/AttrsProofs.v coq/theories/Config.v harness/props/c18.py harness/props/c19.py",
                  serves_properties=["C18", "C19"], kind_free_text="Gallina models of the attribute store, resources, configuration resolution; proofs; in-Coq correspondence"),
         ],
